@@ -34,6 +34,9 @@ def boundary_values(extra=()):
     base |= {0, 1, 2, 3, 65535, 65536, 65537, F, F - 1, F - 2, NANP, 2**31 - 1, 2**31, 2**31 + 1,
              (2**31 - 1) * 65536, 2**47 - 1, 2**47, 2**47 + 1, 2**46, 2**48 - 1, 2**48,
              0x7fffffffffff0000, 0x7fffffffffff0001, 0x7ffffffffffeffff}
+    # raw values at small distances from INT64_MAX (guards of the form `v <= max - k`)
+    for k in (0xf, 0xff, 0xfff, 0x1000, 0x2000, 0x7fff, 0x8000, 0xfffe, 0xffff, 0x10000, 0x10001, 0x1ffff, 0xfffff):
+        base.add(I64MAX - k); base.add(I64MAX - k - 1); base.add(I64MAX - k + 1)
     lits = scrape_literals()
     for v in lits:
         for d in (-1, 0, 1):
@@ -100,6 +103,32 @@ def int_type_range(t):
     return 0, (1 << bits) - 1
 
 INT_TYPES = ["i8", "i16", "i32", "i64", "u8", "u16", "u32", "u64"]
+# distinct C++ integral types with the representation of one of the fixed-width typedefs (LP64): the harness
+# instantiates the library with the spelled type, the model and the oracles use the base type
+# (character types are not accepted by the library under C++20: std::cmp_less rejects them at compile time)
+TYPE_ALIAS = {"ll": "i64", "ull": "u64"}
+ALIAS_OF = {}
+for _a, _b in TYPE_ALIAS.items(): ALIAS_OF.setdefault(_b, []).append(_a)
+
+def alias_lines(lines, rng, frac=0.34):
+    """duplicate a share of the typed operation lines with the alias spelling of their type (all lines whose
+    integral argument is at the edge of the type's range are always duplicated)"""
+    out = []
+    for l in lines:
+        h = l.split(" ", 1)[0]
+        if ":" not in h: continue
+        fn, tag = h.split(":", 1)
+        for al in ALIAS_OF.get(tag, ()):
+            args = l.split()[1:]
+            edge = False
+            try:
+                lo, hi = int_type_range(tag)
+                edge = any(int(x) in (lo, lo + 1, hi, hi - 1) or (tag[0] == "u" and int(x) > hi // 2 and int(x) > hi - 2**34) for x in args[-1:])
+            except ValueError:
+                pass
+            if edge or rng.random() < frac:
+                out.append("%s:%s %s" % (fn, al, " ".join(args)))
+    return out
 
 def type_values(rng, t, n, pool):
     lo, hi = int_type_range(t)
